@@ -19,7 +19,7 @@ _counter = [0]
 
 
 def channels(tier):
-    ch = ["lowlevel", "path", "path.gz", "fileobj", "lowlevel+ignore", "second-generation", "helpers", "resumed", "concatenated"]
+    ch = ["lowlevel", "path", "path.gz", "fileobj", "lowlevel+ignore", "second-generation", "helpers", "resumed", "concatenated", "sink"]
     if tier == "thorough":
         ch += ["path.bz2", "path.lz4", "path.zst"]
     return ch
@@ -152,6 +152,27 @@ def roundtrip(records, channel):
                     os.unlink(p)
                 except OSError:
                     pass
+    if channel == "sink":
+        # a file-like object that is no io class: write() takes everything and returns None (tee / hashing / socket wrappers)
+        class Sink:
+            def __init__(self):
+                self.parts = []
+
+            def write(self, data):
+                self.parts.append(bytes(data))
+
+            def flush(self):
+                pass
+
+            def close(self):
+                pass
+
+        sink = Sink()
+        w = RecordStreamWriter(sink)
+        _feed(w, records)
+        w.flush()
+        data = b"".join(sink.parts)
+        return list(RecordStreamReader(io.BytesIO(data)))
     if channel == "lowlevel":
         buf = io.BytesIO()
         w = RecordStreamWriter(buf)
@@ -206,7 +227,7 @@ def run_case(case):
     outs = []
     nontrivial = any(any(s[1] != ["none"] for s in o[3][:-3]) if o[0] == "rec" else True for o in expected)
     n = 0
-    for ch in (channels(TIER[0]) if not case.get("light") else ["lowlevel", "path"]):
+    for ch in (channels(TIER[0]) if not case.get("light") else ["lowlevel", "path", "path.gz", "sink"]):
         n += 1
         try:
             got = roundtrip(records, ch)
